@@ -4,9 +4,9 @@ CONSTANTS
   MaxTime = 2500
   EagerKeys = FALSE
   SplitByFlush = FALSE
-  KeepSubs = FALSE
+  KeepSubs = TRUE
   FlushVaries = TRUE
-  Kinds = {"P", "S1", "A1"}
+  Kinds = {"P", "PS", "S1"}
   TTLs = {0, 2}
 INVARIANTS NeverLonger NotEarlier Present WellFormed KeysNeeded SubsNeeded
 CHECK_DEADLOCK FALSE
